@@ -26,7 +26,7 @@ META = {
 
 
 META['explanation'] += ' Rounds 4-5: ' + 'R1 deep freshness: a new list around the same Composite / node objects is not a copy. R3 _cleanup decided by constant propagation on a mixed child list. R5 _get_insert_idx decided for every list of sibling positions (up to 4 over 3 positions) x new position: slot after the last sibling at the same or an earlier position, 0 when all come later. R6 also: the path handed to the search has not lost a part.'
-META['technique'] += '; conditional constant propagation over the CFG on finite, complete input domains (DESIGN.md 10.4.1)'
+META['technique'] = META.get('technique', 'static analysis: AST/CFG rules over /repo source + shipped XML data') + '; conditional constant propagation over the CFG on finite, complete input domains (DESIGN.md 10.4.1)'
 
 NODE_CLASSES = ('X12DataNode', 'X12LoopDataNode', 'X12SegmentDataNode')
 
